@@ -194,6 +194,32 @@ def run(ck):
                 ok = f.base in ("Pistache::Queue::pop", "Pistache::Queue::Queue")
                 ck.ob("C13-R4", "tail-writer:" + f.base, ok, e.loc, f, "assigns Queue::tail")
 
+    # ---------------- R6: nothing enqueues on a pollable queue without the signal ----------------
+    ck.rule("C13-R6", "D who-may-call (resolved receivers)",
+            "on an object whose static type is PollableQueue<T>, the only call that links an entry is PollableQueue::push (link, then "
+            "signal): no other member of the base Queue that links an entry -- Queue::push itself, or anything that reaches it -- is "
+            "called on a pollable queue outside that wrapper", 5)
+    summ6 = lib.Summaries(prog)
+    def links(e):
+        return e["k"] == "call" and e.base_callee() in ("std::atomic::exchange", "std::__atomic_base::exchange") and strip_tmpl((e.get("recv") or {}).get("f") or "") == "Pistache::Queue::head"
+    npq = 0
+    for f in prog.library_funcs():
+        for e in f.events("call"):
+            rty = ((e.get("recv") or {}).get("ty") or "") + " " + ((e.get("recv") or {}).get("ft") or "")
+            if "PollableQueue<" not in rty:
+                continue
+            gs = [g for g in prog.resolve_call(e) if g.blocks]
+            if not gs or not any(summ6.may(g, links, "queue-link") for g in gs):
+                continue
+            npq += 1
+            base_ = strip_tmpl(e.get("callee") or "")
+            via_wrapper = base_ == "Pistache::PollableQueue::push" or f.base == "Pistache::PollableQueue::push"
+            ck.ob("C13-R6", "enqueue@%s:%s" % (prog.owner(f).base.replace("Pistache::", ""), (e.get("recv") or {}).get("t")), via_wrapper, e.loc, f,
+                  "PollableQueue::push" if via_wrapper else
+                  "`%s` links an entry into a pollable queue through %s, which does not write the eventfd: the entry stays queued and the "
+                  "consumer is never woken for it" % ((e.get("t") or "")[:60], base_))
+    ck.require(npq >= 5, "enqueueing calls on pollable queues found: %d" % npq)
+
     # ---------------- R5 ----------------
     qc = [c for c in prog.class_list if strip_tmpl(c["name"]) == "Pistache::Queue" and c.get("dependent")]
     ec = [c for c in prog.class_list if strip_tmpl(c["name"]) == "Pistache::Queue::Entry" and c.get("dependent")]
